@@ -82,13 +82,29 @@ def run(R, tier):
                     ok = ps and all(is_none(p) and not p.consumed for p in ps)
                     R.check(ok, "R06.1", key, "absent: Ok(None), nothing consumed", "an absent optional parameter must give None and leave %s in place: %s" % (first, desc))
 
-    # next_data / next_optional_data route through the token functions
-    for fn, inner in (("next_data", "next_token"), ("next_optional_data", "next_optional_token")):
+    # next_data / next_optional_data obtain their token through the token functions (never from the stream directly)
+    # and treat an absent element like those do: -109 (required) / Ok(None) (optional), nothing consumed
+    for fn, required in (("next_data", True), ("next_optional_data", False)):
         bb = u.body("scpi::parser::parameters::Parameters::" + fn)
         names = [c.name for c in bb.calls()]
-        ok = sum(1 for n in names if n.endswith("Parameters::" + inner)) == 1
-        ok = ok and not any("Peekable" in n for n in names)
-        R.check(ok, "R06.2", fn, "obtains its token only through %s (conversion: R06.4)" % inner, "%s must take its token from %s: calls %s" % (fn, inner, names))
+        n_tok = sum(1 for n in names if n.endswith(("Parameters::next_token", "Parameters::next_optional_token")))
+        ok = n_tok == 1 and not any("Peekable" in n for n in names)
+        R.check(ok, "R06.2", fn, "obtains its token through one call of next_token / next_optional_token (conversion: R06.4)", "%s must take its token from next_token / next_optional_token exactly once and never from the stream directly: calls %s" % (fn, names))
+        tb = D.params_table(fn)
+        bad = []
+        for (first, second), ps in sorted(tb.items(), key=lambda kv: repr(kv[0])):
+            if first in M.DATA or first == "ProgramDataSeparator":
+                continue
+            for p in ps:
+                if first == "ERR":
+                    good = p.outcome == "Err(<lexer-error>)" and not p.consumed
+                elif required:
+                    good = p.outcome == "Err(MissingParameter)" and not p.consumed
+                else:
+                    good = is_none(p) and not p.consumed
+                if not good:
+                    bad.append("%s: %s" % (first, p.describe()))
+        R.check(not bad, "R06.2", fn + ":absent", "no element: %s, nothing consumed" % ("-109 Missing parameter" if required else "Ok(None)"), "%s with no data element next: %s" % (fn, "; ".join(bad[:4])))
 
     # a failed conversion of a supplied element is the unit's error (never "absent", never dropped)
     for fn in ("next_data", "next_optional_data"):
